@@ -36,6 +36,7 @@ pub fn dispatch2(check: &str, lo: i64, hi: i64, seed: u64, thorough: bool, out: 
     "c17_day_series" => c17_day_series(lo, hi, out),
     "c17_year_month_stars" => c17_year_month_stars(lo, hi, out),
     "c18_tables" => c18_tables(lo, hi, out),
+    "c18_views" => c18_views(lo, hi, out),
     "c20_festivals" => c20_festivals(lo, hi, out),
     "c20_holidays" => c20_holidays(lo, hi, out),
     "c10_history" => c10_history(lo, hi, seed, out),
@@ -920,6 +921,11 @@ fn c10_refusals(lo: i64, hi: i64, out: &mut Out) {
     Box::new(|| { let _ = SolarDay::from_ymd(0, 1, 1); }), Box::new(|| { let _ = SolarTime::from_ymd_hms(2023, 1, 1, 24, 0, 0); }), Box::new(|| { let _ = LunarHour::from_ymd_hms(2023, 1, 1, 0, 60, 0); }),
     Box::new(|| { let _ = LunarWeek::from_ym(2023, 1, 6, 0); }), Box::new(|| { let _ = SolarWeek::from_ym(2023, 1, 0, 7); }), Box::new(|| { let _ = HeavenStem::from_name("x"); }),
     Box::new(|| { let _ = LunarYear::from_year(10000); }), Box::new(|| { let _ = SixtyCycleYear::from_year(-2); }), Box::new(|| { let _ = EightChar::new("甲子", "乙丑", "x", "甲子"); }),
+    // requests that fail INSIDE a strategy object's critical section: a lunar hour whose civil date lies in year 10000, a birth
+    // whose governing Jie lies beyond the supported range
+    Box::new(|| { let _ = LunarHour::from_ymd_hms(9999, 12, 3, 0, 0, 0).get_eight_char(); }),
+    Box::new(|| { let _ = ChildLimit::from_solar_time(SolarTime::from_ymd_hms(9999, 12, 30, 12, 0, 0), Gender::MAN); }),
+    Box::new(|| { let _ = ChildLimit::from_solar_time(SolarTime::from_ymd_hms(9999, 12, 30, 12, 0, 0), Gender::WOMAN); }),
   ];
   for (i, b) in bad.iter().enumerate() {
     if (i as i64) < lo || (i as i64) > hi { continue; }
@@ -931,11 +937,12 @@ fn c10_refusals(lo: i64, hi: i64, out: &mut Out) {
       if !refused { out.fail(format!("refusal_accepted:{}", i), "invalid request was accepted".into()); }
       let ok = month_sig(2023, 1) == month_ref(2023, 1) && month_sig(2023, -2) == month_ref(2023, -2) && month_sig(1999 + pos, 5) == month_ref(1999 + pos, 5)
         && guard(|| SolarDay::from_ymd(2023, 5, 1).get_lunar_day().get_solar_day()) == Some(SolarDay::from_ymd(2023, 5, 1))
-        && guard(|| SolarTime::from_ymd_hms(2023, 5, 1, 10, 0, 0).get_lunar_hour().get_eight_char().to_string()).is_some();
+        && guard(|| SolarTime::from_ymd_hms(2023, 5, 1, 10, 0, 0).get_lunar_hour().get_eight_char().to_string()).is_some()
+        && guard(|| ChildLimit::from_solar_time(SolarTime::from_ymd_hms(2023, 5, 1, 10, 0, 0), Gender::MAN).get_end_time().to_string()).is_some();
       if !ok { out.fail(format!("refusal:{}:{}", i, pos), "a valid request after the refused one fails or differs".into()); }
     }
   }
-  out.sample("18 kinds of invalid request x 3 positions in a history".to_string());
+  out.sample("21 kinds of refused request x 3 positions in a history".to_string());
 }
 
 // ---------------------------------------------------------------------------------------------
@@ -986,5 +993,43 @@ fn c04_leap_rule(lo: i64, hi: i64, out: &mut Out) {
       }
     }
     if y == lo { out.sample(format!("sui of {}: {} lunations, leap position {:?}, table leap {}", y, last + 1, leap_pos, lib_leap)); }
+  }
+}
+
+
+// C18: the day- and hour-level views return exactly the table entries of their (month pillar, day pillar) resp. (day pillar
+// used for the hour - the next day's from 23:00 -, hour pillar): 60 consecutive days x 24 hours starting at year lo..hi, Jan 1 + 17*year
+fn c18_views(lo: i64, hi: i64, out: &mut Out) {
+  let idx = |v: &Vec<Taboo>| v.iter().map(|t| t.get_index()).collect::<Vec<usize>>();
+  for y in lo..=hi {
+    let base = SolarDay::from_ymd(y as isize, 1 + (y % 12) as usize, 1);
+    for i in 0..60isize {
+      let sd = base.next(i);
+      out.evaluations += 1;
+      let r = guard(|| {
+        let scd = sd.get_sixty_cycle_day(); let ld = sd.get_lunar_day();
+        let (mp, dp) = (scd.get_month(), scd.get_sixty_cycle());
+        let want_g: Vec<usize> = God::get_day_gods(mp.clone(), dp.clone()).iter().map(|g| g.get_index()).collect();
+        let gg = |v: Vec<God>| v.iter().map(|g| g.get_index()).collect::<Vec<usize>>();
+        (gg(scd.get_gods()) == want_g && gg(ld.get_gods()) == want_g && !want_g.is_empty(),
+         idx(&scd.get_recommends()) == idx(&Taboo::get_day_recommends(mp.clone(), dp.clone())) && idx(&ld.get_recommends()) == idx(&Taboo::get_day_recommends(mp.clone(), dp.clone())),
+         idx(&scd.get_avoids()) == idx(&Taboo::get_day_avoids(mp.clone(), dp.clone())) && idx(&ld.get_avoids()) == idx(&Taboo::get_day_avoids(mp.clone(), dp.clone())))
+      });
+      match r { Some((true, true, true)) => {}, Some(v) => out.fail(format!("dayview:{}", sd), format!("gods/recommends/avoids agree with the table: {:?}", v)), None => out.fail(format!("dayview:{}", sd), "panic".into()) }
+      for h in 0..24usize {
+        out.evaluations += 1;
+        let t = SolarTime::from_ymd_hms(sd.get_year(), sd.get_month(), sd.get_day(), h, 30, 0);
+        let r = guard(|| {
+          let sh = t.get_sixty_cycle_hour(); let lh = t.get_lunar_hour();
+          let (dp, hp) = (sh.get_day(), sh.get_sixty_cycle());
+          let (wr, wa) = (idx(&Taboo::get_hour_recommends(dp.clone(), hp.clone())), idx(&Taboo::get_hour_avoids(dp.clone(), hp.clone())));
+          let disjoint = !wr.iter().any(|x| wa.contains(x));
+          (idx(&sh.get_recommends()) == wr && idx(&lh.get_recommends()) == wr, idx(&sh.get_avoids()) == wa && idx(&lh.get_avoids()) == wa, disjoint,
+           !idx(&lh.get_recommends()).iter().any(|x| idx(&lh.get_avoids()).contains(x)))
+        });
+        match r { Some((true, true, true, true)) => {}, Some(v) => out.fail(format!("hourview:{}", t), format!("recommends / avoids agree with the table and are disjoint: {:?}", v)), None => out.fail(format!("hourview:{}", t), "panic".into()) }
+      }
+    }
+    if y == lo { out.sample(format!("60 days from {} x 24 hours", base)); }
   }
 }
